@@ -1,3 +1,4 @@
+#![allow(unexpected_cfgs)]
 
 // ---------------------------------------------------------------------------
 // Appended by /verif (scratch copy only).  Symbolic-or-replayed inputs so the
